@@ -164,8 +164,9 @@ def encPair (p : Nat × Nat) : String := s!"{p.1}:{p.2}"
 
 def decObj (s : String) : Obj :=
   match s.splitOn ";" with
-  | [t, ats, bs] => ⟨decStr t, decList "," decAtom ats, decList "," decPair bs⟩
-  | _ => ⟨[], [], []⟩
+  | [t, ats, bs] => ⟨decStr t, decList "," decAtom ats, decList "," decPair bs, none⟩
+  | [t, ats, bs, c] => ⟨decStr t, decList "," decAtom ats, decList "," decPair bs, if c == "-" then none else some (decStr c)⟩
+  | _ => ⟨[], [], [], none⟩
 def encLoaded (o : Loaded) : String :=
   ";".intercalate [encStr o.title, (match o.compound with | some c => encStr c | none => "-"),
     (if o.chainids then "1" else "0"), encList "," encAtom o.atoms, encList "," encPair o.bonds]
